@@ -19,7 +19,7 @@ ASSUMPTIONS = ["AMBA handshake rules for the environment: valid and payload held
                "so that the observational monitor can tell whose beat/answer it sees",
                "8-bit data, 6-bit addresses, 1..3 x 1..3, address maps as C06; max 6 handshakes per channel within the bound (monitor counters)",
                "time-out disabled (C11)"]
-BOUNDS = {"quick": "BMC K=10 cycles from reset (AXI-Lite 4 shapes, AXI4 shared 2x2)", "thorough": "BMC K=16 cycles from reset, all AXI-Lite shapes; AXI4 twins K=12..14, five shapes"}
+BOUNDS = {"quick": "BMC K=10 cycles from reset (AXI-Lite 4 shapes, AXI4 shared 2x2)", "thorough": "BMC from reset: shared K=14 (12 shapes), crossbar K=12 (1x2..2x2), K=10 (2x3, 3x2), K=8 (3x3); AXI4 twins K=12..14, five shapes"}
 OUTSIDE = "AXI4 twins (axi_full.py) are checked with bursts of 1..3 beats of one common (rigid symbolic) length and INCR/any side-band values, 2x2 shared in quick, five shapes in thorough; longer or mixed-length bursts; schedules longer than K"
 FUNCS = ["litex.soc.interconnect.axi.axi_full.AXIInterconnectShared/AXICrossbar/AXIArbiter/AXIDecoder (axi_* harnesses)", "litex.soc.interconnect.axi.axi_lite._AXILiteRequestCounter", "litex.soc.interconnect.axi.axi_lite.AXILiteArbiter", "litex.soc.interconnect.axi.axi_lite.AXILiteDecoder",
          "litex.soc.interconnect.axi.axi_lite.AXILiteInterconnectShared", "litex.soc.interconnect.axi.axi_lite.AXILiteCrossbar",
@@ -269,14 +269,15 @@ def build(kind, M, S, mapname, K, std="lite"):
 def jobs(tier):
     js = []
     if tier == "thorough":
-        K = 16
-        cfgs = [(k, m, s, mp) for k in ("shared", "crossbar") for (m, s) in ((1, 2), (2, 1), (2, 2), (2, 3), (3, 2), (3, 3)) for mp in ("adjacent", "hole")]
-        cfgs += [("shared", 1, 1, "adjacent"), ("crossbar", 1, 3, "gapped"), ("shared", 3, 1, "gapped")]
+        # K sized from measured solver times (a crossbar holds M decoders and S arbiters): shared K=14, small crossbars K=12, larger K=10
+        cfgs = [("shared", m, s, mp, 14) for (m, s) in ((1, 2), (2, 1), (2, 2), (2, 3), (3, 2), (3, 3)) for mp in ("adjacent", "hole")]
+        cfgs += [("crossbar", m, s, mp, 12) for (m, s) in ((1, 2), (2, 1), (2, 2)) for mp in ("adjacent", "hole")]
+        cfgs += [("crossbar", 2, 3, "hole", 10), ("crossbar", 3, 2, "adjacent", 10), ("crossbar", 3, 3, "hole", 8)]
+        cfgs += [("shared", 1, 1, "adjacent", 14), ("crossbar", 1, 3, "gapped", 12), ("shared", 3, 1, "gapped", 14)]
     else:
-        K = 10
-        cfgs = [("shared", 2, 2, "adjacent"), ("shared", 2, 3, "hole"), ("crossbar", 2, 2, "hole"), ("shared", 1, 2, "gapped")]
-    for (kind, m, s, mp) in cfgs:
-        js.append(Job("axil_%s_%dx%d_%s" % (kind, m, s, mp), build, dict(kind=kind, M=m, S=s, mapname=mp, K=K), cost=m * s * (3 if kind == "crossbar" else 1), timeout_s=3400))
+        cfgs = [("shared", 2, 2, "adjacent", 10), ("shared", 2, 3, "hole", 10), ("crossbar", 2, 2, "hole", 10), ("shared", 1, 2, "gapped", 10)]
+    for (kind, m, s, mp, K) in cfgs:
+        js.append(Job("axil_%s_%dx%d_%s" % (kind, m, s, mp), build, dict(kind=kind, M=m, S=s, mapname=mp, K=K), cost=m * s * (3 if kind == "crossbar" else 1) * K, timeout_s=5000))
     # AXI4 twins (bursts of 1..3 beats, rigid symbolic length)
     if tier == "thorough":
         fcfgs = [("shared", 2, 2, "adjacent", 14), ("crossbar", 2, 2, "hole", 14), ("shared", 1, 2, "gapped", 14), ("shared", 2, 1, "adjacent", 14), ("shared", 2, 3, "hole", 12)]
